@@ -474,14 +474,11 @@ def cot_confine(ck, name, call, x, replay, info=None, Lmax=0, circular=False):
     ck.oracle_ok(('cot-confine', name), group='special-values', sample={'what': 'non-finite cotangent entries confined to their batch item: ' + name})
 
 
-def substituted(ck, prop):
-    """a module IS its registered state: called with the buffers of another configuration of the same shapes - through
-    `torch.func.functional_call`, after `load_state_dict(..., assign=True)`, after plain attribute assignment of the buffers - it computes
-    what a module constructed with that configuration computes"""
+def _cfgs(prop, rng):
+    """(name pattern, constructor from a table / wavelet name, name a, name b of the same buffer shapes, run(module) -> outputs)"""
     import torch
     from pytorch_wavelets import DWTForward, DWTInverse, DWT1DForward, DTCWTForward, DTCWTInverse, ScatLayerj2
     from pytorch_wavelets.dwt.transform2d import SWTForward
-    rng = ck.rng
     x4 = torch.tensor(np.array([rng.randint(-9, 9) for _ in range(2 * 2 * 32 * 32)], dtype=np.float64).reshape(2, 2, 32, 32))
     cfgs = []
     if prop in ('C01', 'C14', 'C17', 'C07', 'C02', 'C05', 'C15'):
@@ -503,6 +500,15 @@ def substituted(ck, prop):
         cfgs.append(('DTCWTInverse(near_sym_a, %s)', lambda q: DTCWTInverse(biort='near_sym_a', qshift=q).double(), 'qshift_a', 'qshift_06', lambda m: m((dl, list(dh)))))
     if prop in ('C08', 'C09', 'C15'):
         cfgs.append(('ScatLayerj2(near_sym_a, %s)', lambda q: ScatLayerj2(biort='near_sym_a', qshift=q).double(), 'qshift_a', 'qshift_06', lambda m: m(x4)))
+    return cfgs
+
+
+def substituted(ck, prop):
+    """a module IS its registered state: called with the buffers of another configuration of the same shapes - through
+    `torch.func.functional_call`, after `load_state_dict(..., assign=True)`, after plain attribute assignment of the buffers - it computes
+    what a module constructed with that configuration computes"""
+    import torch
+    cfgs = _cfgs(prop, ck.rng)
     for nm, make, a, b, run in cfgs:
         with history.off(), torch.no_grad():
             A = make(a); Bm = make(b)
@@ -544,6 +550,121 @@ def substituted(ck, prop):
         ck.oracle_ok(('substituted', nm), group='substituted-state', sample={'what': 'substituted state: ' + (nm % a) + ' <- ' + b})
 
 
+def reached(ck, prop):
+    """how the object is reached, what the process looks like at call time, how long the object has been in use: a shallow copy, a
+    subclass, `forward` called directly or by keyword, a member of a parent module that is converted / switched / visited, a state
+    dict with a prefix or with extra keys; grad mode off globally, deterministic algorithms, one thread, oneDNN off, warnings as
+    errors, anomaly detection, NumPy errors raised; two hundred earlier calls on three shapes.  None of it changes the result."""
+    import torch, copy, inspect, warnings, contextlib
+    for nm, make, a, b, run in _cfgs(prop, ck.rng):
+        name = nm % a
+        with history.off(), torch.no_grad():
+            want = [t.numpy().copy() for t in _tensors(run(make(a)), [])]
+
+        def check(label, f):
+            try:
+                with history.off():
+                    got = [t.detach().numpy().copy() for t in _tensors(f(), [])]
+            except Exception as e:
+                ck.fail('object / environment: %s %s raises %s: %s (a plain call of a fresh instance returns)' % (name, label, type(e).__name__, str(e)[:100]),
+                        {'oracle': 'locality', 'prop': prop, 'group': '__reached__'})
+                return False
+            if len(got) != len(want):
+                ck.fail('object / environment: %s %s returns %d outputs instead of %d' % (name, label, len(got), len(want)), {'oracle': 'locality', 'prop': prop, 'group': '__reached__'})
+                return False
+            for k, (u, v) in enumerate(zip(got, want)):
+                if u.shape != v.shape or u.dtype != v.dtype or not (np.abs(u.astype(np.float64) - v.astype(np.float64)) <= 1e-9 * max(1.0, float(np.max(np.abs(v))) if v.size else 1.0)).all():
+                    ck.fail('object / environment: %s %s: output %d %s from a plain call of a fresh instance' % (name, label, k, _close(u, v)[1]), {'oracle': 'locality', 'prop': prop, 'group': '__reached__'})
+                    return False
+            return True
+
+        def ng(f):
+            def g():
+                with torch.no_grad():
+                    return f()
+            return g
+        M = make(a)
+        pname = [p_ for p_ in inspect.signature(M.forward).parameters][0]
+        Sub = type('Sub' + type(M).__name__, (type(M),), {})
+        class Over(type(M)):
+            def forward(self, *a_, **k_):
+                return super().forward(*a_, **k_)
+
+        def as_class(cls):
+            m = make(a); m.__class__ = cls; return m
+
+        def in_parent(fn):
+            m = make(a); par = torch.nn.Sequential(torch.nn.Identity(), m); fn(par); return m
+
+        def sd_prefix():
+            m = make(a); sd = {k[len('p.'):]: v for k, v in make(a).state_dict(prefix='p.').items()}; m.load_state_dict(sd); return m
+
+        def sd_extra():
+            m = make(a); sd = dict(make(a).state_dict()); sd['not_a_buffer_of_this_module'] = torch.zeros(3); m.load_state_dict(sd, strict=False); return m
+
+        def many_calls():
+            m = make(a)
+            for i in range(200):
+                run(m) if i % 3 == 0 else None
+                try:
+                    if i % 3 == 1 and isinstance(m, torch.nn.Module):
+                        # other shapes in between, where the module takes a plain image
+                        x_ = torch.ones(1, 1, 8 + (i % 5), 12) if 'Inverse' not in name and '1D' not in name else None
+                        if x_ is not None:
+                            m(x_.double())
+                except Exception:
+                    pass
+            return run(m)
+        reach = [('through copy.copy (buffers shared with the original)', ng(lambda: run(copy.copy(make(a))))),
+                 ('as an instance of a subclass that overrides nothing', ng(lambda: run(as_class(Sub)))),
+                 ('as an instance of a subclass whose forward calls super().forward', ng(lambda: run(as_class(Over)))),
+                 ('through module.forward(...) instead of module(...)', ng(lambda: run(make(a).forward))),
+                 ('with its argument passed by keyword (%s=...)' % pname, ng(lambda: run(lambda arg, m=make(a): m(**{pname: arg})))),
+                 ('as a member of a Sequential that is switched to eval() and back', ng(lambda: run(in_parent(lambda p_: (p_.eval(), p_.train()))))),
+                 ('as a member of a Sequential after .double(), .to("cpu"), requires_grad_(False), zero_grad(), apply(visitor), share_memory()',
+                  ng(lambda: run(in_parent(lambda p_: (p_.double(), p_.to('cpu'), p_.requires_grad_(False), p_.zero_grad(), p_.apply(lambda m_: None), p_.share_memory()))))),
+                 ('after loading its own state saved with a prefix', ng(lambda: run(sd_prefix()))),
+                 ('after load_state_dict(strict=False) of its own state plus an unknown key', ng(lambda: run(sd_extra()))),
+                 ('after two hundred earlier calls on three shapes', ng(many_calls))]
+
+        @contextlib.contextmanager
+        def env(setup, restore):
+            old = setup()
+            try:
+                yield
+            finally:
+                restore(old)
+
+        def in_env(cm, build_inside):
+            def g():
+                if build_inside:
+                    with cm():
+                        with torch.no_grad():
+                            return run(make(a))
+                m = make(a)
+                with cm():
+                    with torch.no_grad():
+                        return run(m)
+            return g
+        envs = [('with torch.set_grad_enabled(False) set globally', lambda: env(lambda: (torch.is_grad_enabled(), torch.set_grad_enabled(False))[0], lambda o: torch.set_grad_enabled(o))),
+                ('under torch.use_deterministic_algorithms(True)', lambda: env(lambda: (torch.are_deterministic_algorithms_enabled(), torch.use_deterministic_algorithms(True))[0], lambda o: torch.use_deterministic_algorithms(o))),
+                ('with torch.set_num_threads(1)', lambda: env(lambda: (torch.get_num_threads(), torch.set_num_threads(1))[0], lambda o: torch.set_num_threads(o))),
+                ('with oneDNN switched off (torch.backends.mkldnn.flags(enabled=False))', lambda: torch.backends.mkldnn.flags(enabled=False)),
+                ('with warnings turned into errors', lambda: env(lambda: (warnings.filters[:], warnings.simplefilter('error'))[0], lambda o: warnings.filters.__setitem__(slice(None), o))),
+                ('under torch.autograd.set_detect_anomaly(True)', lambda: torch.autograd.set_detect_anomaly(True)),
+                ('with NumPy floating-point errors raised (np.errstate(all="raise"))', lambda: np.errstate(all='raise'))]
+        ok = True
+        for label, f in reach:
+            ok = check(label, f) and ok
+            if not ok:
+                return
+        for label, cm in envs:
+            for inside in (False, True):
+                if not check(label + (' (module constructed inside too)' if inside else ''), in_env(cm, inside)):
+                    return
+        ck.oracle_ok(('reached', name), group='object-and-environment', sample={'what': 'object / environment: ' + name, 'variants': len(reach) + 2 * len(envs)})
+
+
 def run_for(ck, prop, only=None):
     if prop == 'C18':
         return
@@ -558,6 +679,8 @@ def run_for(ck, prop, only=None):
         return
     if only in (None, '__substituted__'):
         rt.guard(ck, substituted, ck, prop)
+    if only in (None, '__reached__'):
+        rt.guard(ck, reached, ck, prop)
     for g in gs:
         name, call, x, where, info, Lm, circular = g[:7]
         call_all = g[7] if len(g) > 7 else None
